@@ -29,7 +29,11 @@ from nverif.oracle.rational import lagrange_derivative_weights, poly_eval, poly_
 from nverif.oracle.stencil import common_scale, to_int, stencil_weights_int
 
 EPS = 2.0 ** -52
-TOL_C16 = 1e4          # in units of eps * sum_j |W_ij| |fx_j|   (fixed by the design; worst seen: evidence)
+# In units of eps * sum_j |W_ij| |fx_j|.  DESIGN proposed 1e4 (exploration worst 67); calibration on the
+# unchanged tree: worst 696 over 8 quick seeds (102 400 cases), 3005 in a thorough run (400 000 cases; the
+# tail is fd_weights' rounding on 12-16 point stencils whose gaps differ by up to 100x), so the constant is
+# 1e5 (>= 10x above the worst measured).  Mutants m65-m67 miss by factors >= 1e12.
+TOL_C16 = 1e5
 
 
 def _pow2_near(v):
@@ -113,7 +117,8 @@ class C16(Prop):
     assumptions = ('python fractions / integer arithmetic is exact; float(Fraction) is correctly rounded',
                    'exact stencil weights by integer Lagrange expansion (cross-checked against the '
                    'Fraction expansion of nverif.oracle.rational on import and on sampled stencils)',
-                   'tolerance 1e4*eps*sum_j|W_ij||fx_j| with W the exact weights of the documented stencil',
+                   'tolerance 1e5*eps*sum_j|W_ij||fx_j| with W the exact weights of the documented stencil '
+                   '(design value 1e4 raised after calibration: worst 3.0e3 in 400 000 cases)',
                    'clause boundary-stencil (degree 2mm+1, boundary points only) rests on the docstring '
                    'sentence "2*mm+2 points for each of the 2*mm boundary points", not on the property text')
     constants = {'TOL_C16': TOL_C16}
